@@ -18,6 +18,8 @@ package main
 //            the session read over the reduced assets must itself be persistable
 //   hunt-*    the inputs of the C02 bug hunt (/verif/hunt/C02 findings 1-8): typed text as legacy variable, URN path,
 //            number / datetime field value, read_chars argument; URNs of a definition; a message UUID that is not v4
+//   hunt2-*   second hunt wave (/verif/hunt2/C02): trigger without contact; syntax-error excerpt cut inside a character;
+//            has_beginning match cut inside a character; flow asset whose definition carries another UUID (alias-*)
 //   exited-child-flow  templates reading the flow of an exited child / exited parent after a restart; msg trigger with
 //            a keyword match built through the builder API (mutation trials M13, M14 in checks/C02.mutations.md)
 
@@ -215,6 +217,23 @@ func corpusScenarios() []*Scenario {
 				}
 				return out
 			}()},
+		// second hunt wave (/verif/hunt2/C02)
+		{"hunt2-no-contact", []any{flowDef(1, actionNode(101, 102, map[string]any{"type": "send_msg", "text": "hi @contact.name"},
+			map[string]any{"type": "start_session", "flow": flowRefJSON(1), "create_contact": true}),
+			waitNode(102, 103),
+			actionNode(103, 0, map[string]any{"type": "set_contact_name", "name": "x"}, map[string]any{"type": "send_msg", "text": probeText}))},
+			func() map[string]any { t := manual(false); delete(t, "contact"); return t }(), []json.RawMessage{msg(0, "a"), msg(1, "b")}},
+		{"hunt2-syntax-error-excerpt", []any{flowDef(1, waitNode(101, 102),
+			actionNode(102, 103, map[string]any{"type": "send_msg", "text": "@(\"Салам\" + ) !"}, map[string]any{"type": "set_run_result", "name": "r1", "value": "@(\"日本語日本語\" 1)"}),
+			waitNode(103, 0))},
+			manual(false), []json.RawMessage{msg(0, "a"), msg(1, "b")}},
+		{"hunt2-has-beginning", []any{flowDef(1, func() map[string]any {
+			n := waitNode(101, 102)
+			rt := n["router"].(map[string]any)
+			rt["cases"] = []any{map[string]any{"uuid": ruuid(kCase, 1010), "type": "has_beginning", "arguments": []string{"k\ufffd"}, "category_uuid": ruuid(kCat, 1010)}}
+			return n
+		}(), actionNode(102, 101, map[string]any{"type": "send_msg", "text": "v=@results.r0.value enc=@(url_encode(results.r0.value))"}))},
+			manual(false), []json.RawMessage{msg(0, "\u212aé rest"), msg(1, "b")}},
 		{"exited-child-flow", []any{
 			flowDef(1, actionNode(101, 102, map[string]any{"type": "enter_flow", "flow": flowRefJSON(2)}), waitNode(102, 103),
 				actionNode(103, 104, map[string]any{"type": "send_msg", "text": "c=@child f=@child.flow.name s=@child.status r=@child.results.r0.value"}), waitNode(104, 105),
@@ -301,6 +320,90 @@ func corpusScenarios() []*Scenario {
 			Batch:     it.trigger["batch"] == true,
 			Input:     map[string]any{"stream": "corpus", "name": it.name, "assets": json.RawMessage(assetsJSON), "trigger": json.RawMessage(trigJSON), "resumes": it.resumes},
 			Tags:      []string{"corpus"},
+		})
+	}
+	out = append(out, aliasScenarios(len(out))...)
+	return out
+}
+
+// aliasSource serves one flow asset under a UUID that differs from the UUID inside its definition (a copied / imported flow
+// whose definition was not rewritten; static.NewFlow builds exactly this)
+type aliasSource struct {
+	assets.Source
+	outer assets.FlowUUID
+	name  string
+	def   []byte
+}
+
+func (s *aliasSource) FlowByUUID(u assets.FlowUUID) (assets.Flow, error) {
+	if u == s.outer {
+		return static.NewFlow(s.outer, s.name, s.def), nil
+	}
+	return s.Source.FlowByUUID(u)
+}
+
+func (s *aliasSource) FlowByName(n string) (assets.Flow, error) {
+	if n == s.name {
+		return static.NewFlow(s.outer, s.name, s.def), nil
+	}
+	return s.Source.FlowByName(n)
+}
+
+// alias-colliding: asset 7 "Copy" has a definition that says it is flow 2 (which exists, same node UUIDs, other text);
+// alias-dangling: the definition says flow 8, which does not exist.  The run must go on in the asset it started in.
+func aliasScenarios(first int) []*Scenario {
+	contact := map[string]any{"uuid": "5d76d86b-3bb9-4d5a-b822-c9d86f5d8e4f", "id": 1234567, "name": "Ryan Lewis", "status": "active", "language": "eng",
+		"created_on": "2018-06-20T11:40:30.123456789-00:00", "urns": []string{"tel:+12024561111"}}
+	mk := func(inner int, text string) map[string]any {
+		// node / exit / category uuids are those of flow 2 in both (copies keep them)
+		f := flowDef(inner, actionNode(201, 202, map[string]any{"type": "send_msg", "text": "name?"}), waitNode(202, 203),
+			actionNode(203, 204, map[string]any{"type": "send_msg", "text": text}, map[string]any{"type": "enter_flow", "flow": flowRefJSON(3)}), waitNode(204, 205),
+			actionNode(205, 0, map[string]any{"type": "send_msg", "text": text + " again, child=@child.flow.name"}))
+		return f
+	}
+	child := flowDef(3, actionNode(301, 0, map[string]any{"type": "send_msg", "text": "in child, parent=@parent.flow.name"}))
+	var out []*Scenario
+	for k, variant := range []string{"alias-colliding", "alias-dangling"} {
+		inner := 2
+		flowsJSON := []any{mk(2, "this is the ORIGINAL"), child}
+		if variant == "alias-dangling" {
+			inner = 8
+			flowsJSON = []any{child}
+		}
+		copyDef, _ := json.Marshal(mk(inner, "this is the COPY"))
+		assetsJSON := richAssets(flowsJSON)
+		outer := assets.FlowUUID(ruuid(kFlow, 7))
+		trig := map[string]any{"type": "manual", "flow": map[string]any{"uuid": string(outer), "name": "Copy"}, "contact": contact, "triggered_on": "2019-12-31T11:40:30.123456789-00:00"}
+		trigJSON, _ := json.Marshal(trig)
+		resumesJSON := []json.RawMessage{}
+		for i, t := range []string{"Bob", "b"} {
+			b, _ := json.Marshal(map[string]any{"type": "msg", "resumed_on": "2020-01-01T13:00:00.000000000-00:00",
+				"msg": map[string]any{"uuid": fmt.Sprintf("9bf91c2b-ce58-4cef-aacc-%012d", i+1), "text": t, "urn": "tel:+12024561111"}})
+			resumesJSON = append(resumesJSON, b)
+		}
+		load := func() (flows.SessionAssets, error) {
+			src, err := static.NewSource(assetsJSON)
+			if err != nil {
+				return nil, err
+			}
+			return engine.NewSessionAssets(envs.NewBuilder().Build(), &aliasSource{Source: src, outer: outer, name: "Copy", def: copyDef}, nil)
+		}
+		out = append(out, &Scenario{
+			Name:       "corpus:" + variant,
+			Seed:       int64(9500 + first + k),
+			LoadAssets: load,
+			NewEngine:  func() flows.Engine { return serviceEngine(engine.NewBuilder()) },
+			MakeTrigger: func(sa flows.SessionAssets) (flows.Trigger, error) {
+				return triggers.ReadTrigger(sa, trigJSON, assets.IgnoreMissing)
+			},
+			NumResumes: len(resumesJSON),
+			MakeResume: func(sa flows.SessionAssets, i int) (flows.Resume, error) {
+				return resumes.ReadResume(sa, resumesJSON[i], assets.IgnoreMissing)
+			},
+			Requestor: urlRequestor{},
+			Input: map[string]any{"stream": "corpus", "name": variant, "assets": json.RawMessage(assetsJSON), "flow_asset_uuid": string(outer),
+				"flow_asset_definition": json.RawMessage(copyDef), "trigger": json.RawMessage(trigJSON), "resumes": resumesJSON},
+			Tags: []string{"corpus"},
 		})
 	}
 	return out
